@@ -11,7 +11,7 @@ literal writes merged, neighbouring `def`s sorted by name because mako emits the
   ["w", E] ["x", E] ["if", E, S, S] ["for", var, [E…], S] ["forloop", var, S] ["while", n, S]
   ["tryx", S, S] ["tryf", S, S] ["ret", E] "brk" "cont" ["raise", n] ["loopenter", [E…]]
   "pushFrame" "popFrame" "pushBuffer" "popBuffer" "popBufferAndWriter" "pushWriter" "getWriter"
-  "clearNextCaller" "loopExit"
+  "saveNextCaller" "restoreNextCaller" "loopExit"
   ["def", name, [params], ownLoops, deco, lex | "-", S]      ["nextcaller", S]
   E: ["lit", s] ["var", n] ["cat", E, E] ["call", f, [E…]] ["caller", name, [E…]] ["capture", f, [E…]]
      "boom" ["filt", i, E] "loopindex" "mbuf" ["include", i] "probe"
@@ -74,7 +74,7 @@ def _lean_expr(x):
 
 
 PRIMS = {"pushFrame", "popFrame", "pushBuffer", "popBuffer", "popBufferAndWriter", "pushWriter", "getWriter",
-         "clearNextCaller", "loopExit"}
+         "saveNextCaller", "restoreNextCaller", "loopExit"}
 
 
 def _lean_stmts(x, out):
@@ -336,6 +336,11 @@ class _Py:
                 if s.name == "ccall":
                     nxt = stmts[i]
                     i += 1
+                    if _src(nxt) == "__M_nextcaller = context.caller_stack.nextcaller":
+                        # (since 555117c) the pending caller is saved between `def ccall` and its use
+                        out.append("saveNextCaller")
+                        nxt = stmts[i]
+                        i += 1
                     if not _src(nxt).startswith("context.caller_stack.nextcaller = runtime.Namespace('caller', context, callables=ccall(__M_caller))"):
                         raise CanonError("ccall not followed by nextcaller assignment")
                     inner = [x for x in s.body if not isinstance(x, ast.Return)]
@@ -408,7 +413,8 @@ class _Py:
                 "__M_buf, __M_writer = context._pop_buffer_and_writer()": "popBufferAndWriter",
                 "__M_writer = context._push_writer()": "pushWriter",
                 "__M_writer = context.writer()": "getWriter",
-                "context.caller_stack.nextcaller = None": "clearNextCaller",
+                "__M_nextcaller = context.caller_stack.nextcaller": "saveNextCaller",
+                "context.caller_stack.nextcaller = __M_nextcaller": "restoreNextCaller",
                 "loop = __M_loop._exit()": "loopExit",
             }
             if txt in simple:
